@@ -102,8 +102,8 @@ class _Res:
 class SerialPool:
     """contract of pathos ProcessingPool.amap/map: results in input order"""
 
-    def __init__(self, *a, **k):
-        pass
+    def __init__(self, *a, ncpus=1, **k):
+        self.ncpus = self.nodes = ncpus        # pathos pools expose their size as .ncpus / .nodes; the maps stay order-preserving
 
     def __enter__(self):
         return self
